@@ -181,6 +181,29 @@ CLAIMED["C15"] = dict(
          "mis-corrected into another valid record (then applied or rejected by the sanity check): 'skipped' is proved for the tool's own "
          "criterion; Hamming pass is a no-op at threshold 0 (observed); F19 for codecs 1/2.")
 
+CLAIMED["C08"] = dict(
+    text="Kernel-checked theorems: with the bytes of one entry replaced by ARBITRARY bytes of any length (no additional marker spelled) or its "
+         "marker destroyed (bytes glued to the previous entry) the buffered scanner still returns every other entry, in order, with exactly "
+         "its own bytes, for every buffer size, and the loop reaches the end of the file; an entry with trailing bytes glued to its track is "
+         "split into the same fields and its blocks are assembled exactly as before in both tools; per-entry processing is an arbitrary "
+         "function of the entry's own bytes. That the real per-entry code reads nothing else, never raises whatever the entry holds, and the "
+         "results of non-victim files on really damaged ecc files are decided by differential execution (13 damage classes incl. garbage "
+         "0-3x the entry, destroyed markers/delimiters, non-numeric size, entries cut to a few bytes).",
+    design="§6 C08", technique="Lean 4 proof (corollaries of the scanner, field and layout theorems) + victim-damage differential execution of the tools",
+    note="Trusted: Lean kernel and standard axioms; model validated by sampling (scanner on real damaged files, per-file replay); PARTIAL: "
+         "no composed theorem about the real per-entry code (the whole-file tool works on file positions; its reads are bounded by the entry "
+         "after the repairs 60c7fba, af0338d); damage spelling an additional marker is the format's documented limit.")
+CLAIMED["C18"] = dict(
+    text="Kernel-checked theorems over a model of what `pff dup -d` does with one group of copies (single copy copied; first copy matching "
+         "the database used; else the C06 majority vote; then the written file compared with the row of its own relative path) for ANY "
+         "deterministic hash pair, any number of copies and any corruption: marked OK only if the written file matches the recorded "
+         "hashes; a mismatch is KO and non-zero; a copy is used as correct only if it matches; whenever some copy matches or the vote "
+         "restores the file, the output matches (a damaged first replica is never copied through); uncovered paths are never marked OK. "
+         "Tied to /repo by running `pff dup -d` on forests with files at depth 0-3 (outputs, report columns, exit).",
+    design="§6 C18, §7 F3", technique="Lean 4 proof (decision logic over the group of copies) + model/implementation correspondence on real replica forests",
+    note="Trusted: Lean kernel and standard axioms; model validated by sampling; hashlib as a parameter; depth-independence of the database "
+         "lookup is exactly what the correspondence decides (repaired defect F3, commit ad22318).")
+
 NOT_YET = {}
 
 props = [json.loads(l) for l in open(os.path.join(VERIF, "properties.jsonl"))]
